@@ -190,7 +190,7 @@ impl Property for P {
     fn cases(tier: Tier) -> u64 {
         match tier {
             Tier::Quick => 240,
-            Tier::Thorough => 2_000,
+            Tier::Thorough => 6_000,
         }
     }
     fn chunk(_t: Tier) -> u64 {
